@@ -90,7 +90,7 @@ SPEC = {
         "LEAN": {"modules": ["GfaProofs.Bridge.Regex", "GfaProofs.Lemmas.Regex", "GfaProofs.C20", "GfaProofs.Bridge.LineFmt", "GfaProofs.C04Line", "GfaProofs.C04Validate"],
                  "support": ["GfaProofs.Lemmas.RegexLang", "GfaModel.Grammar", "GfaModel.Field", "GfaModel.Regex", "GfaModel.LineFmt", "GfaModel.Validate"],
                  "theorems": ["Gfa.C04Validate.validate_simple", "Gfa.C04Validate.simple_virtual_iff", "Gfa.C04Validate.validate_refs_real",
-                              "Gfa.C04Validate.validate_ok_iff", "Gfa.C04.idGfa2_not_placeholder", "Gfa.C04.accepted_S2_named", "Gfa.C04.accepted_F_named", "Gfa.C04.acceptFields_iff", "Gfa.C04.accept_rewrite", "Gfa.C04.accept_too_few", "Gfa.C04.accept_dup_tag",
+                              "Gfa.C04Validate.validate_ok_iff", "Gfa.C04.idGfa2_not_placeholder", "Gfa.C04.f_accept_finite", "Gfa.C04.accepted_S2_named", "Gfa.C04.accepted_F_named", "Gfa.C04.acceptFields_iff", "Gfa.C04.accept_rewrite", "Gfa.C04.accept_too_few", "Gfa.C04.accept_dup_tag",
                               "Gfa.C04.accept_predefined_type", "Gfa.Bridge.LineFmt.posfields_table", "Gfa.Bridge.LineFmt.predefined_table",
                               "Gfa.Bridge.LineFmt.classes_complete", "Gfa.RE.accepts_iff", "Gfa.C20.int_accept_iff", "Gfa.C20.accept_Z_iff", "Gfa.C20.hex_odd_rejected",
                               "Gfa.C20.accept_intStr", "Gfa.C20.numarr_range_rejected"] +
@@ -98,7 +98,7 @@ SPEC = {
                               ["A", "i", "f", "Z", "J", "H", "B", "alnGfa1", "alnListGfa1", "oidListGfa1", "posGfa1", "segNameGfa1",
                                "seqGfa1", "pathNameGfa1", "idGfa2", "oidGfa2", "idListGfa2", "oidListGfa2", "optIdGfa2", "posGfa2",
                                "customRecordType", "seqGfa2", "optInt", "cigar1", "cigar2", "tagName"]]},
-        "ASSUMPTIONS": ["JSON well-formedness of J payloads and the float value conversion are Python built-ins outside the model",
+        "ASSUMPTIONS": ["JSON well-formedness of J payloads is a Python built-in outside the model; of the float conversion only finiteness is modelled (floatFinite: the numeral is below 2^1024 - 2^970, exact at the boundary), the value itself is not",
                         "line-level acceptance (arity, positional datatypes, tag syntax, unique tag names, predefined tag types, the cross-field rules "
                         "LN = |sequence|, path overlap count, begin <= end) is modelled (LineFmt.acceptLine), tied by the bridged class tables "
                         "POSFIELDS/DATATYPE/PREDEFINED_TAGS and by a correspondence on valid lines and their mutations, and characterised clause by "
